@@ -136,6 +136,59 @@ static void scalar_history(const char* tn, const std::string& prefix, std::uint6
             std::fprintf(out.f, "{\"e\":\"div\",\"id\":%d,\"form\":\"ops\",\"n\":%s,\"q\":%s,\"r\":%s,\"sig\":\"%s\"}\n", id, flat(&n, W).c_str(), flat(&q2, W).c_str(), flat(&r2, W).c_str(), signame(s2));
             std::fprintf(out.f, "{\"e\":\"div\",\"id\":%d,\"form\":\"eq\",\"n\":%s,\"q\":%s,\"r\":%s,\"sig\":\"%s\"}\n", id, flat(&n, W).c_str(), flat(&q3, W).c_str(), flat(&r3, W).c_str(), signame(s3));
         }
+        // A denominator is a value: a copy, and an existing object assigned from another one, divide like their
+        // source ("div(n, Denominator<T>(d))" does not say how the object got there).  The previous object of this
+        // history (another divisor, often of the other sign) is overwritten by assignment and then used.
+        {
+            alignas(D) static unsigned char prev_store[sizeof(D)];
+            static D* prev = nullptr;
+            static int prev_tag = 0;
+            if (prev_tag != int(sizeof(T) * 2 + (K == 'i'))) { prev = nullptr; prev_tag = int(sizeof(T) * 2 + (K == 'i')); }
+            if (prev) {
+                int sg5 = guarded([&] { *prev = *obj; });                    // copy assignment over an older divisor
+                int idp = out.next_id++;
+                std::fprintf(out.f, "{\"e\":\"copy\",\"id\":%d,\"from\":%d,\"form\":\"assign\",\"sig\":\"%s\"}\n", idp, id, signame(sg5));
+                if (!sg5) {
+                    T v5 = T(0);
+                    sg5 = guarded([&] { v5 = prev->value(); });
+                    std::fprintf(out.f, "{\"e\":\"value\",\"id\":%d,\"v\":%s,\"sig\":\"%s\"}\n", idp, flat(&v5, W).c_str(), signame(sg5));
+                    std::vector<T> ns = numerators<T>(d, r);
+                    for (std::size_t i = 0; i < ns.size(); i += (ns.size() / 16 + 1)) {
+                        T n = ns[i];
+                        if (undefined_pair(n, d)) continue;
+                        opaque(n);
+                        T q = 0, rem = 0, q2 = 0, r2 = 0;
+                        int s6 = guarded([&] { auto x = div(n, *prev); q = x.quot; rem = x.rem; });
+                        int s7 = guarded([&] { T a = n, b = n; a /= *prev; b %= *prev; q2 = a; r2 = b; });
+                        std::fprintf(out.f, "{\"e\":\"div\",\"id\":%d,\"form\":\"div\",\"n\":%s,\"q\":%s,\"r\":%s,\"sig\":\"%s\"}\n", idp, flat(&n, W).c_str(), flat(&q, W).c_str(), flat(&rem, W).c_str(), signame(s6));
+                        std::fprintf(out.f, "{\"e\":\"div\",\"id\":%d,\"form\":\"eq\",\"n\":%s,\"q\":%s,\"r\":%s,\"sig\":\"%s\"}\n", idp, flat(&n, W).c_str(), flat(&q2, W).c_str(), flat(&r2, W).c_str(), signame(s7));
+                    }
+                }
+            }
+            {   // copy construction (also how a denominator is passed by value)
+                alignas(D) unsigned char cstore[sizeof(D)];
+                D* cp = nullptr;
+                int sg8 = guarded([&] { cp = new (cstore) D(*obj); });
+                int idc = out.next_id++;
+                std::fprintf(out.f, "{\"e\":\"copy\",\"id\":%d,\"from\":%d,\"form\":\"ctor\",\"sig\":\"%s\"}\n", idc, id, signame(sg8));
+                if (!sg8) {
+                    std::vector<T> ns = numerators<T>(d, r);
+                    for (std::size_t i = 0; i < ns.size(); i += (ns.size() / 6 + 1)) {
+                        T n = ns[i];
+                        if (undefined_pair(n, d)) continue;
+                        opaque(n);
+                        T q = 0, rem = 0;
+                        int s6 = guarded([&] { auto x = div(n, *cp); q = x.quot; rem = x.rem; });
+                        std::fprintf(out.f, "{\"e\":\"div\",\"id\":%d,\"form\":\"div\",\"n\":%s,\"q\":%s,\"r\":%s,\"sig\":\"%s\"}\n", idc, flat(&n, W).c_str(), flat(&q, W).c_str(), flat(&rem, W).c_str(), signame(s6));
+                    }
+                }
+            }
+            // remember a copy of this object for the next divisor's assignment (every other divisor, so that signs mix)
+            if (!prev || (shift_tick & 1)) {
+                int sg9 = guarded([&] { prev = new (prev_store) D(*obj); });
+                if (sg9) prev = nullptr;
+            }
+        }
         // Beyond C14 (events flagged "x":1 are reported as EXTRA, never as a violation): operator<< / operator>> of a
         // denominator multiply / divide the divisor by 2^s; only amounts that keep the divisor exact are issued
         // (the documentation clamps larger ones).
